@@ -1,0 +1,80 @@
+//go:build verif
+
+// Package verifhook re-exports internal packages for the external verification
+// harness. It is compiled only with the "verif" build tag and adds no behaviour.
+package verifhook
+
+import (
+	"io"
+	"math/big"
+
+	"github.com/mmcloughlin/addchain/acc/ast"
+	"github.com/mmcloughlin/addchain/internal/bigint"
+	"github.com/mmcloughlin/addchain/internal/bigints"
+	"github.com/mmcloughlin/addchain/internal/bigvector"
+	"github.com/mmcloughlin/addchain/internal/calc"
+	"github.com/mmcloughlin/addchain/internal/gen"
+	"github.com/mmcloughlin/addchain/internal/metavars"
+)
+
+// internal/bigint.
+var (
+	BigintHex               = bigint.Hex
+	BigintBinary            = bigint.Binary
+	BigintPow2              = bigint.Pow2
+	BigintIsPow2            = bigint.IsPow2
+	BigintPow2UpTo          = bigint.Pow2UpTo
+	BigintMask              = bigint.Mask
+	BigintOnes              = bigint.Ones
+	BigintBitsSet           = bigint.BitsSet
+	BigintMinMax            = bigint.MinMax
+	BigintExtract           = bigint.Extract
+	BigintUint64s           = bigint.Uint64s
+	BigintBytesLittleEndian = bigint.BytesLittleEndian
+)
+
+// internal/bigints.
+var (
+	BigintsSort               = bigints.Sort
+	BigintsIndex              = bigints.Index
+	BigintsContains           = bigints.Contains
+	BigintsContainsSorted     = bigints.ContainsSorted
+	BigintsClone              = bigints.Clone
+	BigintsConcat             = bigints.Concat
+	BigintsUnique             = bigints.Unique
+	BigintsInsertSortedUnique = bigints.InsertSortedUnique
+	BigintsMergeUnique        = bigints.MergeUnique
+)
+
+// internal/bigvector.
+type BigVector = bigvector.Vector
+
+var (
+	BigvectorNew      = bigvector.New
+	BigvectorNewBasis = bigvector.NewBasis
+	BigvectorAdd      = bigvector.Add
+	BigvectorLsh      = bigvector.Lsh
+)
+
+// internal/calc.
+func CalcEval(expr string) (*big.Int, error) { return calc.Eval(expr) }
+
+// internal/gen.
+type (
+	GenConfig = gen.Config
+	GenData   = gen.Data
+)
+
+func GenPrepareData(cfg GenConfig, s *ast.Chain) (*GenData, error) { return gen.PrepareData(cfg, s) }
+func GenGenerate(w io.Writer, tmpl string, d *GenData) error       { return gen.Generate(w, tmpl, d) }
+func GenBuiltinTemplate(name string) (string, error)               { return gen.BuiltinTemplate(name) }
+func GenBuiltinTemplateNames() []string                            { return gen.BuiltinTemplateNames() }
+
+// internal/metavars.
+type (
+	MetavarsProperty = metavars.Property
+	MetavarsFile     = metavars.File
+)
+
+func MetavarsWrite(w io.Writer, f *MetavarsFile) error { return metavars.Write(w, f) }
+func MetavarsRead(r io.Reader) (*MetavarsFile, error)  { return metavars.Read(r) }
